@@ -141,7 +141,12 @@ def fam_failure(rng):
             out = {"kind": "kbd"}
         script = [["wait", "go"], ["end", out]] if rng.random() < 0.8 else [["sleep", 0.02], ["end", out]]
         f = {"pid": pid, "fl": fl, "script": script, "role": "failing", "out": out}
-        if out["kind"] in ("exc", "baseExc") and rng.random() < 0.2:
+        if loop_killer(f):
+            # SystemExit / KeyboardInterrupt from a payload stop the event loop at once; a payload that is being
+            # handed over at that very moment may be started by the dying loop and is then neither cancelled nor
+            # run (asyncio destroys it pending). Such a kill is only generated once everything has started.
+            f["script"] = [["wait", "go"], ["end", out]]
+        elif out["kind"] in ("exc", "baseExc") and rng.random() < 0.2:
             # the payload fails when it is *called* (wrong arguments, a plain function that raises
             # before it produces its awaitable): there is no coroutine body at all
             f["callfail"] = True
